@@ -110,7 +110,7 @@ def is_collection(v) -> bool:
 
 
 SUBS = [
-    Sub("values", check, strategy=lambda tier: asts.values(3 if tier == "quick" else 4).map(lambda v: {"v": v}),
+    Sub("values", check, fuzz_runs=2000, strategy=lambda tier: asts.values(3 if tier == "quick" else 4).map(lambda v: {"v": v}),
         nontrivial=lambda c: depth_of(c["v"]) >= 2 or is_collection(c["v"]), classes=lambda c: [c["v"]["k"]] + (["collection"] if is_collection(c["v"]) else []) + ([f"depth{min(depth_of(c['v']), 5)}"]),
         n_quick=2000, n_thorough=12000),
 ]
